@@ -435,4 +435,74 @@ def _replay_two_messages(n1, malformed1, second, n2, cid):
         return bad, {'history': [m1, n2], 'responses_for_first_request': count(rid), 'responses_for_probe': count(probe), 'all_response_ids': [x.get('id') for x in resp]}
     return rp
 
-KERNELS = [k1, k2, k2b, k4, k5]
+# ---------------------------------------------------------------------------------------------- K3 a request through the whole message loop, shutdown included: answered exactly once
+@kernel('K3 lsp.run_answers_request_once')
+def k3(ctx, kr):
+    P = ctx.program(CR)
+    key = [k for k in P.items if k[0] == 'ironplcc' and re.fullmatch(r'lsp::<impl at [^>]*>::run', k[1])][0]
+    env = LSP.Env(P); st = {}
+    def st_tokenize(M, fr, callee, a):
+        if M.branch(M.fresh_bool('tokenize_ok')): return ok(VecV([]))
+        return err(VecV([]))
+    def st_into(M, fr, callee, a): return IterV(list(st['msgs']))
+    stubs = env.stubs(); stubs[r'^lsp_project::LspProject::tokenize$'] = st_tokenize
+    stubs[r'^<&crossbeam_channel::Receiver<.*> as std::iter::IntoIterator>::into_iter$'] = st_into
+    M = Machine(P, stubs=stubs)
+    def entry(M):
+        env.sent.clear(); env.json_ok.clear()
+        meth, v, ids = LSP.sym_method(M, 'method', list(LSP.REQ_METHODS)); st['m'] = (meth, v, ids)
+        env.params['SemanticTokensFullRequest'] = lambda: LSP.mkstruct(P, 'SemanticTokensParams', text_document=LSP.mkstruct(P, 'TextDocumentIdentifier', uri=Agg('Url', [Str('file:///d.st')])))
+        env.params['Shutdown'] = UNIT
+        st['msgs'] = [EnumV('Message', 0, [LSP.mkstruct(P, 'Request', id=Agg('RequestId', [7]), method=meth, params=Opaque('json'))])]
+        return M.call_fn(key, [_new_lsp_server(M, P), Ref(Cell(Opaque('receiver')))])
+    def on_path(M, pr):
+        kr.paths += 1
+        if pr.inconclusive: kr.inconc(pr.inconclusive); return
+        s = z3.Solver(); s.add(*pr.pc); kr.queries += 1
+        if s.check() != z3.sat: return
+        m = s.model(); kr.nontrivial += 1
+        meth, v, ids = st['m']; val = m.eval(v, True).as_long()
+        nm = [LSP.REQ_METHODS[t] for t, i in ids.items() if i.as_long() == val]
+        nm = nm[0] if nm else 'some/otherMethod'
+        bad = [t for t, b in env.json_ok.items() if not z3.is_true(m.eval(b, True))]
+        wit = {'method': nm, 'params_deserialise': not bad}
+        rep = ('lsp_single_request', (nm, bool(bad)))
+        if pr.panic: _add(kr, 'C12/K3/panic/%s%s' % ('malformed-' if bad else '', nm), 'the message loop panics on a %s request: %s' % (nm, pr.panic.msg[:60]), wit, rep); return
+        resp = [x for x in _msgs_in(M, env, None) if isinstance(x, EnumV) and x.name == 'Message' and x.disc == 1]
+        n = len(resp)
+        # lsp_server::Connection::handle_shutdown(&req) (called by start_with_connection when run returns Ok(req)) answers req with a null result
+        if pr.result.disc == 0: n += 1
+        if n != 1:
+            _add(kr, 'C12/K3/responses/%s%s' % ('malformed-' if bad else '', nm), 'a %s request%s is answered %d times (%d by the handlers%s)' % (nm, ' whose params do not deserialise' if bad else '', n, len(resp),
+                 ', once more by Connection::handle_shutdown because run() returns it as the shutdown request' if pr.result.disc == 0 else ''), wit, rep)
+        elif len(kr.validate) < 2 and nm == 'shutdown': kr.validate.append(rep)
+        if len(kr.samples) < 3: kr.samples.append({'request': wit, 'answers': n})
+    M.explore(entry, on_path)
+    kr.queries += M.stats['smt']
+    kr.functions = fn_paths(P, M.encoded); kr.models = sorted(M.models_used)
+    kr.stubs = ['as K1; Receiver iteration yields the one symbolic request then ends; Connection::handle_shutdown by contract: answers the request run() returned']
+    kr.bounds = 'one arbitrary Request (method symbolic over shutdown, semanticTokens/full or any other; params deserialise or not) through LspServer::run with the real handlers, followed by handle_shutdown when run returns the request'
+    kr.exhaustive = True
+
+@replay_factory('lsp_single_request')
+def _replay_single_request(method, malformed):
+    def rp(ctx):
+        import lspclient
+        s = lspclient.LspSession(ctx.ironplcc_path())
+        try:
+            s.initialize(); uri = 'file:///tmp/verif_c12s.st'
+            s.did_open(uri, 'PROGRAM p\nEND_PROGRAM\n', 1); s.diagnostics_for(uri, timeout=10)
+            m = method if method in LSP.REQ_METHODS.values() else 'textDocument/hover'
+            if m == 'shutdown': params = {} if malformed else None
+            else: params = {'bogus': 1} if malformed else ({'textDocument': {'uri': uri}, 'position': {'line': 0, 'character': 0}} if 'hover' in m else {'textDocument': {'uri': uri}})
+            rid = s.request(m, params)
+            seen = []
+            s.wait_for(lambda x: (seen.append(x) or True) and x.get('id') == rid, timeout=3)
+            seen += s.drain(0.5)
+        finally:
+            s.close()
+        n = sum(1 for x in seen if x.get('id') == rid and ('result' in x or 'error' in x))
+        return n != 1, {'method': m, 'malformed_params': malformed, 'responses': n}
+    return rp
+
+KERNELS = [k1, k2, k2b, k3, k4, k5]
